@@ -44,7 +44,7 @@ CELL_OPS = ("CELLSET", "CELLSET_STR")          # a[row, 0] = one character (an e
 
 def _may_write_operand(prog):
     """an in-place operation that is not preceded by a copy may write to the operand the program started from"""
-    writes = [i for i, op in enumerate(prog) if op in ("ASSIGN", "ROWSET_ASCII", "ROWSET_SAME") + CELL_OPS]
+    writes = [i for i, op in enumerate(prog) if op in ("ASSIGN", "ROWSET_ASCII", "ROWSET_SAME", "TWIN_ASSIGN") + CELL_OPS]
     return bool(writes) and "copy" not in prog[:writes[0]]
 
 
@@ -72,7 +72,11 @@ class Ragged(Harness):
              ["rows_empty", "copy"], ["rows_empty", "cols_tail"], ["rows_tail", "rows_empty"],
              ["ROW_GET"], ["rows_tail", "ROW_GET"], ["rows_rev", "copy", "ROW_GET"], ["cols_tail", "ROW_GET"], ["rows_list", "ROW_GET"],
              ["concat_self", "ROW_GET"],
-             ["CELLSET"], ["CELLSET_STR"], ["rows_rev", "copy", "CELLSET_STR"], ["CELLSET", "cols_rev"], ["CELLSET_STR", "EQ"]]
+             ["CELLSET"], ["CELLSET_STR"], ["rows_rev", "copy", "CELLSET_STR"], ["CELLSET", "cols_rev"], ["CELLSET_STR", "EQ"],
+             # one element a[row, col] of a selection; a mask computed on a SECOND, equal selection of the same parent used on the first
+             ["CELL_GET"], ["cols_rev", "CELL_GET"], ["cols_tail", "CELL_GET"], ["rows_rev", "CELL_GET"], ["cols_rev", "copy", "CELL_GET"],
+             ["rows_tail", "TWIN_GET"], ["cols_tail", "TWIN_GET"], ["rows_step", "TWIN_GET"], ["rows_tail", "copy", "TWIN_GET"],
+             ["rows_tail", "TWIN_ASSIGN"], ["cols_tail", "TWIN_ASSIGN"], ["rows_rev", "TWIN_ASSIGN"], ["rows_tail", "copy", "TWIN_ASSIGN"]]
 
     def skeletons(self, tier, seed):
         out = []
@@ -88,7 +92,7 @@ class Ragged(Harness):
                     if tier == "quick" and lens != [3, 0, 1, 4] and len(p) > 1:
                         continue
                     for view in (["ravel", "decode", "string_array"] if "EQ" not in p else ["ravel"]):
-                        if "ROW_GET" in p and view == "string_array":
+                        if ("ROW_GET" in p or "CELL_GET" in p or "TWIN_GET" in p) and view == "string_array":
                             continue
                         if tier == "quick" and view != "ravel" and (kind == "ascii" or lens != [3, 0, 1, 4]):
                             continue
@@ -122,9 +126,30 @@ class Ragged(Harness):
         ch2 = EncodedArray(ctx.arr([x["ch2"]], "uint8"), enc)[0]
         log = []
         result_kind = "rows"
+        prev, last = None, None
         for op in skel["prog"]:
             if op in NEED_ROWS and len(a) == 0:
                 break                              # nothing to index in a selection without rows: the program ends here
+            if op in OPS:
+                prev, last = a, op
+            if op == "CELL_GET":
+                r = next((i for i, L in enumerate(a.lengths) if int(L) > 1), None)       # the first row with a second letter
+                if r is None:
+                    break
+                a = a[r, 1]
+                result_kind = "cell"
+                break
+            if op == "TWIN_GET":
+                twin = OPS[last][0](prev, c)
+                mask = (twin == ch)
+                log.append([bool(b) for row in ctx.lst(mask) for b in row])
+                a = a[mask]                        # the letters equal to ch, as one flat array
+                result_kind = "cell"
+                break
+            if op == "TWIN_ASSIGN":
+                twin = OPS[last][0](prev, c)       # the same selection made a second time: an equal table, another object
+                a[twin == ch] = ch2
+                continue
             if op == "MASK":
                 bits = [x[f"m{i}"] for i in range(len(a))]
                 a = a[ctx.arr(bits, "int64") == 1]
@@ -162,6 +187,8 @@ class Ragged(Harness):
         if result_kind == "bool":
             return dict(kind="bool", rows=ctx.lst(a), log=log, src=ctx.lst(src))
         assert a.encoding == enc, "encoding of the result differs from the operand's"
+        if result_kind == "cell":
+            return dict(kind="rows", rows=[ctx.lst(a.raw().reshape(-1)) if skel["view"] == "ravel" else ctx.lst(enc.decode(a).raw().reshape(-1))], log=log, src=ctx.lst(src))
         if result_kind == "row":
             row = ctx.lst(a) if skel["view"] == "ravel" else (ctx.lst(enc.decode(a)) if skel["view"] == "decode" else None)
             return dict(kind="rows", rows=[row], log=log, src=ctx.lst(src))
@@ -196,6 +223,18 @@ class Ragged(Harness):
                 rows = [[I(t, ch, ch2) for t in r] for r in rows]
                 # item assignment on a selection of a ragged array does not write through to the source rows in general;
                 # the model only tracks the object it was applied to
+            elif op == "CELL_GET":
+                r = next((i for i, row in enumerate(rows) if len(row) > 1), None)
+                if r is None:
+                    break
+                rows = [[rows[r][1]]]
+                break
+            elif op == "TWIN_GET":
+                bits = log.pop(0)
+                rows = [[t for t, b in zip([t for r in rows for t in r], bits) if b]]
+                break
+            elif op == "TWIN_ASSIGN":
+                rows = [[I(t, ch, ch2) for t in r] for r in rows]
             elif op == "ROW_GET":
                 rows = [rows[len(rows) - 1]]
             elif op in ("ROWSET_ASCII", "ROWSET_SAME"):
